@@ -22,9 +22,9 @@ LEVEL_TEXT = ("spec_form / lengths / chains / domain_separated proved in Lean fo
               "tags+truncations and by correspondence on seeded inputs at function and call-site granularity.")
 LEVEL_NOTE = ("Lean kernel + standard axioms. SHA-256/SHA-1 in Lean are validated by NIST vectors and correspondence with hashlib, "
               "not proved against FIPS 180-4; no cryptographic hardness is claimed (domain separation is about hash *inputs*).")
-RULE = ("a case is one derivation (or primitive / call-site chain) evaluated on the implementation, the Lean driver and, where the "
-        "spec defines it, the hashlib reference; distinct = distinct (operation, arguments); non-trivial = at least one byte-string "
-        "argument is non-empty")
+RULE = ("a case is one derivation (or primitive / call-site chain / one call of a seeded call history on long-lived objects with "
+        "colliding server identities) evaluated on the implementation, the Lean driver and, where the spec defines it, the hashlib "
+        "reference; distinct = distinct (operation, arguments); non-trivial = at least one byte-string argument is non-empty")
 TRUSTED = ["lean/Tahoe/Crypto/Derive.lean is a hand transcription of util/hashutil.py (control flow); tags and truncate_to values are extracted",
            "lean/Tahoe/Base/Sha256.lean (SHA-256, SHA-1) is validated by vectors and by correspondence with hashlib, not proved",
            "hashlib / hmac of CPython as the reference primitive"]
@@ -575,6 +575,246 @@ def gen_callsites(ctx, cs, n):
         attempt(ctx, "dirnode child cap", step_dirnode)
 
 
+# --- histories: every call-site derivation is a pure function of its documented inputs -----------
+#
+# The specification gives each secret as a formula of (lease secret, storage index / write key, the server's 20-byte
+# lease seed or write-enabler seed) and nothing else.  So a long-lived object asked many times, in any order, about
+# server stand-ins that share a server id but differ in their seeds (a re-announced server), or share seeds but differ
+# in server id, must return the formula's value at every call.  A history is a JSON-able dict (replayable as a whole);
+# each call of a history is one case compared with the driver and the hashlib reference.
+
+def _h(b):
+    return hx(b)
+
+
+def _u(s):
+    from common import unhx
+    return unhx(s)
+
+
+def make_object_history(rng):
+    """long-lived SecretHolders, MutableFileNodes and immutable Checkers; server stand-ins with colliding identities"""
+    secrets = [rbytes(rng, 32) for _ in range(rng.choice([1, 2]))]
+    if rng.random() < 0.15:
+        secrets.append(rbytes(rng, rng.choice([0, 31, 33])))
+    sids = [rbytes(rng, rng.choice([20, 32])) for _ in range(rng.choice([2, 3]))]
+    leases = [rbytes(rng, 20) for _ in range(3)]
+    wes = [rbytes(rng, 20) for _ in range(3)]
+    if rng.random() < 0.2:
+        leases.append(rbytes(rng, rng.choice([0, 19, 21])))
+        wes.append(rbytes(rng, rng.choice([0, 19, 21])))
+    servers = []
+    # a server re-announced under the same id with new seeds; two ids sharing all seeds; the same triple twice (two objects)
+    servers.append([sids[0], leases[0], wes[0]])
+    servers.append([sids[0], leases[1], wes[1]])
+    servers.append([sids[1], leases[0], wes[0]])
+    servers.append([sids[0], leases[0], wes[0]])
+    servers.append([sids[1], leases[0], wes[2]])    # same id and lease seed as another, different write-enabler seed
+    servers.append([sids[1], leases[2], wes[0]])    # ... and vice versa
+    for _ in range(rng.randrange(0, 4)):
+        servers.append([rng.choice(sids), rng.choice(leases), rng.choice(wes)])
+    rng.shuffle(servers)
+    wks = [rbytes(rng, 16) for _ in range(rng.choice([1, 2, 3]))]
+    nodes = [{"wk": rng.choice(wks), "fp": rbytes(rng, 32), "holder": rng.randrange(len(secrets)),
+              "mdmf": rng.random() < 0.3} for _ in range(rng.choice([1, 2, 3]))]
+    keys = [rbytes(rng, 16) for _ in range(2)]
+    checkers = [{"key": rng.choice(keys), "fp": rbytes(rng, 32), "holder": rng.randrange(len(secrets))}
+                for _ in range(rng.choice([1, 2]))]
+    calls = []
+    for _ in range(rng.choice([12, 25, 40])):
+        r = rng.random()
+        j = rng.randrange(len(servers))
+        if r < 0.6:
+            calls.append(["node", rng.randrange(len(nodes)),
+                          rng.choice(["get_renewal_secret", "get_cancel_secret", "get_write_enabler"]), j])
+        elif r < 0.85:
+            calls.append(["checker", rng.randrange(len(checkers)), rng.choice(["_get_renewal_secret", "_get_cancel_secret"]), j])
+        else:
+            calls.append(["holder", rng.randrange(len(secrets)), rng.choice(["get_renewal_secret", "get_cancel_secret"]), 0])
+    # every (object, method) asked about the re-announced pair back to back at least once, in both orders
+    first = [i for i, sv in enumerate(servers) if sv[0] == sids[0]]
+    for m in ("get_renewal_secret", "get_cancel_secret", "get_write_enabler"):
+        a, b = rng.sample(first, 2)
+        ni = rng.randrange(len(nodes))
+        calls.insert(rng.randrange(len(calls) + 1), ["node", ni, m, a])
+        calls.append(["node", ni, m, b])
+    return {"type": "objects", "secrets": [_h(x) for x in secrets], "servers": [[_h(x) for x in sv] for sv in servers],
+            "nodes": [{"wk": _h(nd["wk"]), "fp": _h(nd["fp"]), "holder": nd["holder"], "mdmf": nd["mdmf"]} for nd in nodes],
+            "checkers": [{"key": _h(c["key"]), "fp": _h(c["fp"]), "holder": c["holder"]} for c in checkers], "calls": calls}
+
+
+def run_object_history(ctx, cs, H):
+    from allmydata import uri
+    from allmydata.client import SecretHolder
+    from allmydata.mutable.filenode import MutableFileNode
+    from allmydata.immutable.checker import Checker
+    secrets = [_u(x) for x in H["secrets"]]
+    holders = [SecretHolder(x, b"convergence") for x in secrets]
+    servers = [FakeServer(_u(a), _u(b), _u(c)) for a, b, c in H["servers"]]
+    nodes, nsi = [], []
+    for nd in H["nodes"]:
+        cls = uri.WriteableMDMFFileURI if nd["mdmf"] else uri.WriteableSSKFileURI
+        nodes.append(MutableFileNode(None, holders[nd["holder"]], {"k": 3, "n": 10}, None).init_from_cap(cls(_u(nd["wk"]), _u(nd["fp"]))))
+        nsi.append(REF1["ssk_storage_index_hash"](REF1["ssk_readkey_hash"](_u(nd["wk"]))))
+    checkers, csi = [], []
+    for c in H["checkers"]:
+        si = REF1["storage_index_hash"](_u(c["key"]))
+        checkers.append(Checker(uri.CHKFileVerifierURI(si, _u(c["fp"]), 3, 10, 1234), [], False, True, holders[c["holder"]], None))
+        csi.append(si)
+    for step, (what, i, meth, j) in enumerate(H["calls"]):
+        args = {"history": H, "step": step}
+        sid, lease, we = (_u(x) for x in H["servers"][j])
+        if what == "node":
+            nd = H["nodes"][i]
+            secret, wk = secrets[nd["holder"]], _u(nd["wk"])
+            impl = guard(getattr(nodes[i], meth), servers[j])
+            if meth == "get_write_enabler":
+                line, ref = "f2 ssk_write_enabler_hash %s %s" % (hx(wk), hx(we)), guard(_r_we, wk, we)
+            elif meth == "get_renewal_secret":
+                line, ref = "renew %s %s %s" % (hx(secret), hx(nsi[i]), hx(lease)), guard(r_renew, secret, nsi[i], lease)
+            else:
+                line, ref = "cancel %s %s %s" % (hx(secret), hx(nsi[i]), hx(lease)), guard(r_cancel, secret, nsi[i], lease)
+            cs.add("history MutableFileNode." + meth, line, impl, ref, args=args)
+        elif what == "checker":
+            secret = secrets[H["checkers"][i]["holder"]]
+            impl = guard(getattr(checkers[i], meth), lease)
+            if meth == "_get_renewal_secret":
+                line, ref = "renew %s %s %s" % (hx(secret), hx(csi[i]), hx(lease)), guard(r_renew, secret, csi[i], lease)
+            else:
+                line, ref = "cancel %s %s %s" % (hx(secret), hx(csi[i]), hx(lease)), guard(r_cancel, secret, csi[i], lease)
+            cs.add("history immutable.Checker." + meth, line, impl, ref, args=args)
+        else:
+            name = "my_renewal_secret_hash" if meth == "get_renewal_secret" else "my_cancel_secret_hash"
+            cs.add("history SecretHolder." + meth, "f1 %s %s" % (name, hx(secrets[i])), guard(getattr(holders[i], meth)),
+                   guard(REF1[name], secrets[i]), args=args)
+
+
+def make_selector_history(rng):
+    """one long-lived Tahoe2ServerSelector + SecretHolder, several get_shareholders rounds; between rounds servers are
+    re-announced (same id, new lease seed) or swap seeds"""
+    sids = [bytes([j + 1]) * 20 for j in range(rng.randrange(2, 6))]
+    seeds = [rbytes(rng, 20) for _ in range(len(sids) + 2)]
+    rounds = []
+    same_si = rbytes(rng, 16)
+    for r in range(rng.choice([2, 3])):
+        rounds.append({"si": _h(same_si if rng.random() < 0.5 else rbytes(rng, 16)),
+                       "servers": [[_h(sid), _h(rng.choice(seeds))] for sid in sids]})
+    return {"type": "selector", "secret": _h(rbytes(rng, 32)), "rounds": rounds}
+
+
+def run_selector_history(ctx, cs, H):
+    from allmydata.client import SecretHolder
+    from allmydata.immutable import upload
+    from twisted.internet import task
+    secret = _u(H["secret"])
+    sh = SecretHolder(secret, b"convergence")
+    sel = upload.Tahoe2ServerSelector(b"c17", upload_status=upload.UploadStatus(), reactor=task.Clock())
+    for rn, rd in enumerate(H["rounds"]):
+        log = []
+        usi = _u(rd["si"])
+        servers = [FakeServer(_u(sid), _u(seed), b"", log) for sid, seed in rd["servers"]]
+        d = sel.get_shareholders(FakeBroker(servers), sh, usi, 1000, 100, 1, len(servers), 1, 1, 500)
+        d.addErrback(lambda f: None)
+        ctx.count("selector:allocate_buckets calls", len(log))
+        if not log:
+            ctx.count("selector:no allocate_buckets call")
+        for (seed, si_seen, renew, cancel) in log:
+            args = {"history": H, "step": rn}
+            cs.add("history Tahoe2ServerSelector->allocate_buckets renew", "renew %s %s %s" % (hx(secret), hx(usi), hx(seed)),
+                   hx(renew) if si_seen == usi else "wrong-si", guard(r_renew, secret, usi, seed), args=args)
+            cs.add("history Tahoe2ServerSelector->allocate_buckets cancel", "cancel %s %s %s" % (hx(secret), hx(usi), hx(seed)),
+                   hx(cancel) if si_seen == usi else "wrong-si", guard(r_cancel, secret, usi, seed), args=args)
+
+
+def make_dirnode_history(rng):
+    wks = [rbytes(rng, 16) for _ in range(rng.choice([2, 3]))]
+    uris = [b"URI:SSK:" + b32(rbytes(rng, 16)) + b":" + b32(rbytes(rng, 32)) for _ in range(3)] + [rbytes(rng, rng.randrange(0, 60))]
+    calls = [[rng.randrange(len(wks)), rng.randrange(len(uris))] for _ in range(rng.choice([8, 16]))]
+    return {"type": "dirnode", "wks": [_h(x) for x in wks], "uris": [_h(x) for x in uris], "calls": calls}
+
+
+def run_dirnode_history(ctx, cs, H):
+    from allmydata import dirnode
+    from allmydata.crypto import aes
+    wks = [_u(x) for x in H["wks"]]
+    uris = [_u(x) for x in H["uris"]]
+
+    class _N:  # DirectoryNode._decrypt_rwcapdata only needs _node.get_writekey()
+        def __init__(self, wk): self.wk = wk
+        def get_writekey(self): return self.wk
+    dns = []
+    for wk in wks:   # one long-lived DirectoryNode stand-in per write key
+        dn = dirnode.DirectoryNode.__new__(dirnode.DirectoryNode)
+        dn._node = _N(wk)
+        dns.append(dn)
+    for step, (wi, ui) in enumerate(H["calls"]):
+        args = {"history": H, "step": step}
+        dwk, rw_uri = wks[wi], uris[ui]
+        blob = dirnode._encrypt_rw_uri(dwk, rw_uri)
+        salt, crypttext, mac = blob[:16], blob[16:-32], blob[-32:]
+        rsalt = REF1["mutable_rwcap_salt_hash"](rw_uri)
+        rkey = REF2["mutable_rwcap_key_hash"](rsalt, dwk)
+        dec = aes.decrypt_data(aes.create_decryptor(rkey), crypttext)
+        impl = "%s:%s" % (hx(salt), hx(rkey) if dec == rw_uri else "key-does-not-decrypt")
+        cs.add("history dirnode._encrypt_rw_uri salt+key", "dirkey %s %s" % (hx(dwk), hx(rw_uri)), impl,
+               "%s:%s" % (hx(rsalt), hx(rkey)), args=args)
+        cs.add("history dirnode._encrypt_rw_uri mac", "dirmac %s %s %s" % (hx(rkey), hx(salt), hx(crypttext)), hx(mac), args=args)
+        back = guard(dns[wi]._decrypt_rwcapdata, blob)
+        if back != hx(rw_uri):
+            ctx.violation("dirnode rw-cap encryption does not round-trip through a long-lived node's _decrypt_rwcapdata",
+                          {"kind": "history dirnode-roundtrip", "line": "dirkey %s %s" % (hx(dwk), hx(rw_uri)), "args": args},
+                          "dirnode-rwcap-roundtrip")
+        ctx.case(("dirnode-roundtrip-history", dwk, rw_uri, step))
+
+
+def make_pool_history(rng):
+    """a hashutil function (or cap class) called repeatedly on arguments drawn from small pools, so that calls share one
+    argument and differ in the other"""
+    name = rng.choice(sorted(F2_DOC) + sorted(F1_DOC) + ["wcap", "rcap", "chk"])
+    la, lb = F2_DOC.get(name, (F1_DOC.get(name, 16), 0))
+    pa = [rbytes(rng, la) for _ in range(3)]
+    pb = [rbytes(rng, lb) for _ in range(3)]
+    calls = [[rng.randrange(3), rng.randrange(3)] for _ in range(10)]
+    return {"type": "pool", "fn": name, "pa": [_h(x) for x in pa], "pb": [_h(x) for x in pb], "calls": calls}
+
+
+def run_pool_history(ctx, cs, H):
+    name = H["fn"]
+    for step, (i, j) in enumerate(H["calls"]):
+        a, b = H["pa"][i], H["pb"][j]
+        if name in F2_DOC:
+            line = "f2 %s %s %s" % (name, a, b)
+        elif name in F1_DOC:
+            line = "f1 %s %s" % (name, a)
+        else:
+            line = "%s %s" % (name, a)
+        impl, ref = eval_line(line)
+        cs.add("history " + name, line, impl, ref, args={"history": H, "step": step})
+
+
+HISTORY_RUNNERS = {"objects": run_object_history, "selector": run_selector_history, "dirnode": run_dirnode_history,
+                   "pool": run_pool_history}
+
+
+def gen_histories(ctx, cs, n):
+    rng = ctx.rng
+    for i in range(n):
+        H = make_object_history(rng)
+        attempt(ctx, "history objects", lambda: run_object_history(ctx, cs, H))
+        ctx.count("history:objects")
+        if i % 4 == 0:
+            Hs = make_selector_history(rng)
+            attempt(ctx, "history selector", lambda: run_selector_history(ctx, cs, Hs))
+            ctx.count("history:selector")
+        if i % 2 == 0:
+            Hd = make_dirnode_history(rng)
+            attempt(ctx, "history dirnode", lambda: run_dirnode_history(ctx, cs, Hd))
+            ctx.count("history:dirnode")
+        Hp = make_pool_history(rng)
+        attempt(ctx, "history pool", lambda: run_pool_history(ctx, cs, Hp))
+        ctx.count("history:pool")
+
+
 def gen_mutable_keys(ctx, cs, n):
     """derive_mutable_keys on real RSA keys (key generation is the slow part, so only a few)"""
     from allmydata.crypto import rsa
@@ -652,6 +892,7 @@ def run(ctx):
              ("convergence", lambda: gen_convergence(ctx, cs, ctx.budget(150, 5000))),
              ("hmac/permute", lambda: gen_untagged(ctx, cs, ctx.budget(100, 3000))),
              ("call sites", lambda: gen_callsites(ctx, cs, ctx.budget(120, 3000))),
+             ("call-site histories", lambda: gen_histories(ctx, cs, ctx.budget(40, 1200))),
              ("derive_mutable_keys", lambda: gen_mutable_keys(ctx, cs, ctx.budget(2, 12)))]
     for label, f in steps:
         attempt(ctx, label, f)
@@ -733,6 +974,14 @@ def replay(ctx, obj):
     reference are recomputed at hashutil / cap-class level (a call-site case is replayed through the functions it calls)."""
     case = obj.get("case") or {}
     line = case.get("line")
+    H = (case.get("args") or {}).get("history")
+    if H and H.get("type") in HISTORY_RUNNERS:
+        # a history case is replayed as the whole history on fresh long-lived objects
+        cs = Cases(ctx)
+        attempt(ctx, "replay history " + H["type"], lambda: HISTORY_RUNNERS[H["type"]](ctx, cs, H))
+        cs.finish()
+        ctx.sample({"history": H["type"], "steps": len(H.get("calls", H.get("rounds", []))), "failing step": (case.get("args") or {}).get("step")})
+        return
     if not line:
         ctx.note("replay file carries no driver line (e.g. a broken proof obligation only): running the full generator instead")
         ctx.replay = None
